@@ -49,6 +49,60 @@ func runC05(p *Prog, r *Report) {
 	}
 	checkFixedFlagSets(p, r)
 	checkVPNWiring(p, r)
+	checkFillerCtors(p, r)
+	// the source address handed to the fillers is a 4-byte address (C17.R1 re-evaluated): the ARP
+	// filler writes it verbatim into a frame that announces 4-byte protocol addresses
+	sub := NewReport("C05", r.Tier)
+	checkRangeTypestate(p, sub)
+	for _, o := range sub.Obs {
+		if o.Rule == "C17.R1" {
+			o2 := *o
+			o2.Rule = "C05.R1"
+			o2.Text = "probe source addresses are 4-byte IPv4: " + o.Text
+			r.Obs = append(r.Obs, &o2)
+		}
+	}
+}
+
+// checkFillerCtors: in a filler constructor the defaults are installed before the options are
+// applied; nothing is written to the filler after the option loop (an explicitly requested value,
+// e.g. an empty payload, is never replaced by a default).
+func checkFillerCtors(p *Prog, r *Report) {
+	n := 0
+	for _, fn := range p.SrcFuncs() {
+		if fn.Parent() != nil || !fn.Signature.Variadic() || fn.Signature.Results().Len() != 1 {
+			continue
+		}
+		if !strings.HasSuffix(types.TypeString(fn.Signature.Results().At(0).Type(), nil), ".PacketFiller") {
+			continue
+		}
+		heads := loopHeadersSorted(fn)
+		if len(heads) != 1 {
+			continue
+		}
+		n++
+		ok, why := true, ""
+		for _, s := range PathsInl(fn).From(heads[0]) {
+			if s.End != nil {
+				continue
+			}
+			// the loop-exit path
+			ret, isRet := s.Exit.(*ssa.Return)
+			if !isRet {
+				continue
+			}
+			filler := s.Resolve(ret.Results[0])
+			for _, e := range s.Events {
+				if e.Kind == EvStore && derivesFromParam(e.Addr, filler, 0) {
+					ok, why = false, "field "+s.Term(e.Addr)+" is written after the options were applied: a value requested through an option can be replaced by a default"
+				}
+			}
+		}
+		r.Check(ok, "C05.R2", FuncName(fn)+"/options-last", p.Pos(fn.Pos()), "a filler constructor installs its defaults before the option loop and writes nothing to the filler afterwards", why)
+	}
+	if n < 3 {
+		r.Viol("C05.R2", "filler constructors", "-", "the option-taking filler constructors are found (icmp, tcp, udp)", fmt.Sprint(n))
+	}
 }
 
 func protoOf(fn *ssa.Function) string { return lastElem(fn.Pkg.Pkg.Path()) }
